@@ -212,7 +212,7 @@ def _violations(viol_lines, by_id, merged_by_id):
         c = by_id[cid]
         m = merged_by_id[cid]
         brief = {k: c[k] for k in ("problem", "method", "class", "n", "t0", "tf", "jac", "use_args", "has_sparsity", "dense",
-                                   "has_t_eval", "events_form", "y0_form", "ret")}
+                                   "has_t_eval", "events_form", "y0_form", "ret", "jac_form", "jac_ret", "ev_ret", "tspan_form")}
         out.append(vlib.Violation(PROP, _signature(clause, c),
                                   f"clause={clause} case={json.dumps(brief, sort_keys=True)} observed={json.dumps(detail, sort_keys=True)[:1500]}",
                                   {"case": c, "rust": m["r"], "python": m["p"]}))
